@@ -244,14 +244,20 @@ theorem merge_keeps_old_metadata (r x r' : Repo) (m : Bool) (h : mergeMutable r 
 
 /-! ## the hash decides the hashed options; the statement outside the known findings -/
 
+/-- **the hash preimage is uniquely decodable** (`ctagsPath ‖ %t ‖ %d ‖ %q ‖ %t`, parsed from the right: boolean,
+    bracketed list of Go-quoted strings — a closing quote is the one preceded by an even run of backslashes —,
+    digit run, boolean, path): option sets with equal preimages agree on all five hashed fields -/
+theorem hash_preimage_injective (a b : Opts) (h : preimage a = preimage b) :
+    a.ctagsPath = b.ctagsPath ∧ a.cTagsMustSucceed = b.cTagsMustSucceed ∧ a.sizeMax = b.sizeMax ∧
+    a.largeFiles = b.largeFiles ∧ a.disableCTags = b.disableCTags := preimage_injective a b h
+
+
 /-- **equal ⇒ the hashed options are the same**: if the stored hash of the repository was computed from options
-    `a`, the digest does not collide on the two preimages, and the large-file patterns need no escaping in `%q`,
-    then `IndexState = equal` for `b` implies that `a` and `b` agree on SizeMax, DisableCTags, CTagsPath,
+    `a` and the digest does not collide on the two preimages, then `IndexState = equal` for `b` implies that `a` and `b` agree on SizeMax, DisableCTags, CTagsPath,
     CTagsMustSucceed and LargeFiles (the preimage ctagsPath‖%t‖%d‖%q‖%t is uniquely decodable) -/
-theorem equal_same_hashed_partial (a b : Opts) (fmt feat : Nat) (repos : List Repo)
+theorem equal_same_hashed (a b : Opts) (fmt feat : Nat) (repos : List Repo)
     (hbuilt : ∀ r ∈ repos, r.name = b.repo.name → r.indexOptions = getHashWith D a)
     (hnc : D (preimage a) = D (preimage b) → preimage a = preimage b)
-    (hpa : ∀ s ∈ a.largeFiles, plain s.toList) (hpb : ∀ s ∈ b.largeFiles, plain s.toList)
     (h : indexStateWith (getHashWith D) V (.shard fmt feat repos) b = .equal) :
     a.sizeMax = b.sizeMax ∧ a.disableCTags = b.disableCTags ∧ a.ctagsPath = b.ctagsPath ∧
     a.cTagsMustSucceed = b.cTagsMustSucceed ∧ a.largeFiles = b.largeFiles := by
@@ -261,17 +267,16 @@ theorem equal_same_hashed_partial (a b : Opts) (fmt feat : Nat) (repos : List Re
   have hmem := List.mem_of_find?_eq_some hf
   have := hbuilt r hmem hnm
   rw [hio] at this
-  obtain ⟨h1, h2, h3, h4, h5⟩ := preimage_injective_partial a b hpa hpb (hnc this.symm)
+  obtain ⟨h1, h2, h3, h4, h5⟩ := preimage_injective a b (hnc this.symm)
   exact ⟨h3, h5, h1, h2, h4⟩
 
 /-- **C38 on the model, outside the known findings**: for an index built from `a` (any options, any description)
     and any requested `b`, the executable statement `checkP` holds of the model's `IndexState` — provided the pair
     does not differ in the three unhashed options, in `Metadata`, or by a removed RawConfig key (the five known
-    findings), the digest does not collide on the two preimages, and the large-file patterns need no escaping -/
+    findings) and the digest does not collide on the two preimages -/
 theorem C38_checkP_partial (a b : Opts) (fmt feat : Nat)
     (hv : versionMismatch V fmt feat = false)
     (hnc : D (preimage a) = D (preimage b) → preimage a = preimage b)
-    (hpa : ∀ s ∈ a.largeFiles, plain s.toList) (hpb : ∀ s ∈ b.largeFiles, plain s.toList)
     (htrig : a.trigramMax = b.trigramMax) (hscip : a.scipCTagsPath = b.scipCTagsPath)
     (hlmap : a.languageMap = b.languageMap)
     (hmeta : sameMap a.repo.metadata b.repo.metadata = true) (hrem : noRemovedKey a.repo b.repo = true) :
@@ -328,7 +333,7 @@ theorem C38_checkP_partial (a b : Opts) (fmt feat : Nat)
       have hne : r.indexOptions ≠ D (preimage b) := by
         rw [hrio]
         intro he
-        exact hH (preimage_injective_partial a b hpa hpb (hnc he))
+        exact hH (preimage_injective a b (hnc he))
       rcases content_change_reindexes D V fmt feat [r] r b hv hf (Or.inl hne) with hs | hs
         <;> rw [hs] <;> simp [violation, hf2]
   · have hst : indexStateWith (getHashWith D) V (.shard fmt feat [r]) b = .corrupt := by
@@ -378,6 +383,6 @@ example : checkP o0 { o0 with sizeMax := 5 }
     (indexStateWith (getHashWith fun s => String.ofList s) ⟨16, 17, 12⟩
       (.shard 16 12 [{ o0.repo with indexOptions := getHashWith (fun s => String.ofList s) o0 }]) { o0 with sizeMax := 5 }) = true :=
   C38_checkP_partial _ ⟨16, 17, 12⟩ o0 _ 16 12 (by decide) (fun h => String.ofList_inj.mp h)
-    (by simp [o0]) (by simp [o0]) rfl rfl rfl (by decide) (by decide)
+    rfl rfl rfl (by decide) (by decide)
 
 end ZoektModel.C38
